@@ -47,6 +47,19 @@ impl<'a, T: Table> TableRef<'a, T> {
         let s = T::slot(self.0);
         if *k == s.probe { Ok(s.value.borrow().clone().map(Cow::Owned)) } else { Ok(None) }
     }
+    // (the whole table API is offered so that a change of WHICH operation the code uses still compiles and is judged by its effect)
+    pub fn replace(&mut self, k: &T::Key, v: &T::Value) -> Result<Option<T::Value>, StorageError> {
+        let old = if *k == T::slot(self.0).probe { T::slot(self.0).value.borrow().clone() } else { None };
+        self.insert(k, v)?; Ok(old)
+    }
+    pub fn contains_key(&self, k: &T::Key) -> Result<bool, StorageError> { Ok(self.get(k)?.is_some()) }
+    pub fn take(&mut self, k: &T::Key) -> Result<Option<T::Value>, StorageError> {
+        if self.0.write_fails { return Err(StorageError) }
+        let s = T::slot(self.0);
+        s.writes.set(s.writes.get() + 1);
+        if *k == s.probe { Ok(s.value.borrow_mut().take()) } else { s.writes_elsewhere.set(s.writes_elsewhere.get() + 1); Ok(None) }
+    }
+    pub fn remove(&mut self, k: &T::Key) -> Result<(), StorageError> { self.take(k).map(|_| ()) }
     pub fn insert(&mut self, k: &T::Key, v: &T::Value) -> Result<(), StorageError> {
         if self.0.write_fails { return Err(StorageError) }
         let s = T::slot(self.0);
